@@ -132,3 +132,83 @@ def twin(S, env):
     if env[S.node.op] != 4:
         return True
     return not (region(S.ctx, env) and main(S, env))
+
+
+# ------------------------------------------------------------------ one-shot functions: order of earlier calls
+import datetime as _dt
+
+
+@dataclasses.dataclass
+class P1:
+    a: int
+
+
+@dataclasses.dataclass
+class P2:
+    a: int
+    b: str = "b"
+
+
+ONESHOT_SHAPES = [typing.Union[P1, P2], typing.Union[P2, P1], typing.Union[int, str], typing.Union[str, int],
+                  typing.Union[_dt.date, str], typing.Union[str, _dt.date], typing.Optional[P1], typing.List[typing.Union[P2, P1]]]
+
+
+class OneShotInput(symval.Node):
+    def __init__(self, ctx, k=3):
+        self.sel = [ctx.new("k", "int", "0 <= $ < %d" % len(ONESHOT_SHAPES)) for _ in range(k)]
+        self.a = ctx.new("i", "int")
+
+    def make(self, env):
+        return [ONESHOT_SHAPES[pick(env[x], len(ONESHOT_SHAPES))] for x in self.sel]
+
+
+def oneshot_main(S, env):
+    shapes = S.node.make(env)
+    with notrace():
+        # every one-shot call builds (or fetches) a codec: run the solver-chosen sequence on concrete data and compare each
+        # call with a codec object built for exactly that shape
+        for j, shp in enumerate(shapes):
+            for data in ({"a": 1, "b": "x"}, "2020-01-02", 5, [{"a": 2, "b": "y"}], None):
+                st1, r1 = call(basic_codec.decode, data, shp)
+                st2, r2 = call(BasicDecoder(shp).decode, data)
+                if st1 != st2 or (st1 == "ok" and not deep_eq(r1, r2)):
+                    return fail("C15/one-shot-decode-differs-from-codec", sequence=shapes[: j + 1], data=data, got=r1, want=r2)
+                if st1 == "ok":
+                    st3, e1 = call(basic_codec.encode, r1, shp)
+                    st4, e2 = call(BasicEncoder(shp).encode, r2)
+                    if st3 != st4 or (st3 == "ok" and not oracle.exact_eq(e1, e2)):
+                        return fail("C15/one-shot-encode-differs-from-codec", sequence=shapes[: j + 1], data=data, got=e1, want=e2)
+    return True
+
+
+_orig_main, _orig_twin, _orig_setup, _orig_plan = main, twin, setup, make_input_plan
+
+
+def make_input_plan(T, variant, **kw):
+    if variant == "oneshot":
+        ctx = symval.Ctx()
+        return ctx, OneShotInput(ctx)
+    return _orig_plan(T, variant)
+
+
+def setup(T, NODE, CTX, variant, **kw):
+    if variant == "oneshot":
+        S = S_()
+        S.node, S.ctx, S.variant = NODE, CTX, variant
+        return S
+    return _orig_setup(T, NODE, CTX, variant)
+
+
+def main(S, env):
+    if S.variant == "oneshot":
+        return oneshot_main(S, env)
+    return _orig_main(S, env)
+
+
+def twin(S, env):
+    if S.variant == "oneshot":
+        sel = [env[x] for x in S.node.sel]
+        if not (sel[0] == 0 and sel[1] == 1):
+            return True
+        return not oneshot_main(S, env)
+    return _orig_twin(S, env)
